@@ -277,6 +277,37 @@ ponly('p.filterOr', ALL, lambda p, c, a, b, s: p.filterOr(id=s, tagname=NAMES[b 
 ponly('p.find', ALL, lambda p, c, a, b, s: p.find(tagname=NAMES[b % len(NAMES)]), scr=True)
 ponly('p.find-attr', ALL, lambda p, c, a, b, s: p.find(**{'id': s}), scr=True)
 ponly('p.find-contains', ALL, lambda p, c, a, b, s: p.find(**{'id__contains': s or 'x'}), scr=True)
+ponly('p.evaluate', ALL, lambda p, c, a, b, s: (p.evaluate(XPATHS[b % len(XPATHS)]), p.getElementsByXPath(XPATHS[a % len(XPATHS)])))
+ponly('p.containsUid', PNONE, lambda p, c, a, b, s: p.containsUid(c.E(a).uid))
+ponly('p.createElement', PNONE, lambda p, c, a, b, s: scribble_el(p.createElement(NAMES[b % len(NAMES)])))
+
+
+def _factories(p, c, a, b, s):
+    """class-level factories build their own temporary parsers: nothing of this document may move"""
+    cls = type(p)
+    html = c.E(a).outerHTML
+    out = []
+    for f in (cls.createElementFromHTML, cls.createElementsFromHTML, cls.createBlocksFromHTML):
+        try:
+            r = f(html)
+            for x in (r if isinstance(r, list) else [r]):
+                if is_tag(x):
+                    scribble_el(x)
+            scribble(r)
+            out.append('ok')
+        except Exception as e:
+            out.append(type(e).__name__)
+    return out
+ponly('p.factories', HTML, _factories)
+
+
+def _collection_views(p, c, a, b, s):
+    col = p.getAllNodes()
+    r = (len(col), [e.tagName for e in col], col[:2], list(reversed(col)), c.E(a) in col, col.index(c.E(a)) if c.E(a) in col else -1,
+         str(col)[:10], bool(col), col == col, col.count(c.E(a)))
+    scribble(col)
+    return r
+ponly('collection-views', PNONE, _collection_views)
 ponly('p.noindex-searches', ALL, lambda p, c, a, b, s: _noindex(p, c, a, b, s))
 OBS['p.getHTML'] = (P(lambda p, c, a, b, s: ('str', p.getHTML())), lambda a, b: ['dochtml'])
 OBS['p.toHTML'] = (P(lambda p, c, a, b, s: ('str', p.toHTML())), lambda a, b: ['dochtml'])
